@@ -527,6 +527,10 @@ func zzC14(e *zzEnv, rng *rand.Rand, n int, variant int) {
 		field := ""
 		data := []byte(fmt.Sprintf("attack-%d-%d", i, rng.Int63()))
 		sep := []string{"/", "/", "\\", "-", "..", "", "//"}[rng.Intn(7)]
+		if sep != "/" && sep != "" && rng.Intn(2) == 0 {
+			// a traversal written with the separator the request announces
+			frag = strings.ReplaceAll([]string{"../x", "../../x", "../../../x", "a/../../x"}[rng.Intn(4)], "/", sep)
+		}
 		kind := rng.Intn(11)
 		if kind == 10 {
 			kind = 11
